@@ -78,8 +78,9 @@ type Session struct {
 	Name     string
 	// source role
 	Replica     bool
-	ReplPos     int64 // next stream offset (absolute) to send to this replica
-	NReq        int   // requests executed on this connection
+	ReplPos     int64  // next stream offset (absolute) to send to this replica
+	RawOut      []byte // snapshot frame not yet delivered to this replica
+	NReq        int    // requests executed on this connection
 	ParseBroken bool
 }
 
